@@ -4,6 +4,7 @@ import os
 
 import evalfam
 import stratfam
+import storefam
 from vlib import InfraError
 
 CHECKS = {}
@@ -22,6 +23,8 @@ def replay(ctx, path):
     fam = obj.get("replay_family", "eval")
     if fam == "eval":
         return evalfam.replay(ctx, obj)
+    if fam == "store":
+        return storefam.replay(ctx, obj)
     if fam == "strat":
         return stratfam.replay(ctx, obj)
     raise InfraError("no replay handler for family %s" % fam)
@@ -60,3 +63,8 @@ def c03(ctx):
 @register("C05")
 def c05(ctx):
     return evalfam.check_c05(ctx)
+
+
+@register("C06")
+def c06(ctx):
+    return storefam.check_c06(ctx)
